@@ -36,6 +36,16 @@ Proof.
 Qed.
 Print Assumptions C05_commit_only_on_success.
 
+(* success against a conforming registry: for EVERY stream (any length, empty, a multiple of the chunk size or not),
+   every chunk size >= 1, a registry that accepts every in-order PATCH (possibly relocating the session), and a
+   descriptor that is absent or truthful, the upload terminates within length+2 iterations, reports success and the
+   registry has committed exactly the stream *)
+Theorem C05_conforming_succeeds : forall stream cap sc declared dsize, (0 < cap)%nat -> accepting sc = true ->
+  (declared = None \/ declared = Some stream) -> (dsize = 0 \/ dsize = zlen stream) ->
+  exists lg, upload (length stream + 2) stream cap [] sc declared dsize = (Done, Some stream, lg).
+Proof. exact conforming_succeeds. Qed.
+Print Assumptions C05_conforming_succeeds.
+
 (* non-vacuity: boundary lengths, partial acknowledgements and a fall-back all reach Done in the model *)
 Example C05_nonvacuous :
   let s := [1;2;3;4;5;6;7;8;9]%N in
